@@ -7,7 +7,7 @@
 #include <chrono>
 
 struct Op { int input = 0; int kind = 0; bool verbose = false; int stream = 1; int buffer = 0; int yields = 0; };   // kind 0 parse, 1 context_parse, 2 write_diag_str
-struct TCase { GCase g; std::vector<std::vector<Op>> threads; };
+struct TCase { GCase g; std::vector<std::vector<Op>> threads; bool share_stream = false; };
 
 struct OpResult { bool threw = false; bool has = false; uint64_t value = 0; std::string err; std::vector<int> slots; std::vector<int> ctx_seen; std::string diag; };
 static bool same(const OpResult& a, const OpResult& b) { return a.threw == b.threw && a.has == b.has && a.value == b.value && a.err == b.err && a.slots == b.slots && a.ctx_seen == b.ctx_seen && a.diag == b.diag; }
@@ -28,7 +28,8 @@ static OpResult run_op(const GCase& c, const Op& op)
     tpl::Ctx ctx; tpl::CallLog log; tpl::g_log = &log;
     try
     {
-        std::ostringstream os; std::string text = in.text;
+        std::ostringstream own; std::ostringstream& os = R::shared_stream() ? *R::shared_stream() : own; os.str(std::string());
+        std::string text = in.text;
         auto opts = ctpg::parse_options{}.set_skip_whitespace(in.skip_ws).set_skip_newline(in.skip_nl).set_verbose(op.verbose);
         auto res = R::parser().context_parse(ctx, opts, ctpg::buffers::string_view_buffer{std::string_view(text)}, os);
         r.has = res.has_value(); if (r.has) r.value = res.value().get_value().h; r.err = os.str();
@@ -65,16 +66,19 @@ static Verdict check_c15(const TCase& tc, Stats& st)
     if (tc.threads.size() == 1)
     {
         bool seen_fail = false;
+        // the whole history reports to ONE stream object, as a program that passes std::cerr to every call does; only its text is cleared between calls
+        std::ostringstream shared; struct Guard { std::ostringstream*& slot; ~Guard() { slot = nullptr; } } guard{R::shared_stream()};
+        if (tc.share_stream) R::shared_stream() = &shared;
         for (size_t i = 0; i < tc.threads[0].size(); ++i)
         {
             OpResult r = run_op<TT>(c, tc.threads[0][i]);
-            if (!same(r, expect[0][i])) return Verdict::fail("a call gave a different result than in isolation (sequential history)", desc(0, i));
+            if (!same(r, expect[0][i])) return Verdict::fail(tc.share_stream ? "a call gave a different result than in isolation (sequential history reporting to one reused stream object)" : "a call gave a different result than in isolation (sequential history)", desc(0, i));
             if (!image_same()) return Verdict::fail("a const call modified the parser object", desc(0, i));
             if (tc.threads[0][i].kind != 2) { if (!r.has) seen_fail = true; else if (seen_fail) had_fail_before_success = true; }
         }
         st.sub_evaluations += st.counting ? tc.threads[0].size() : 0;
         if (had_fail_before_success && st.counting && st.nontriv(eng::hcomb(g.hash(), tc.threads[0].size())))
-        { st.label("nontrivial"); st.label("sequential-history"); if (st.want_sample()) { vj::Value s = vj::Value::object(); s.set("grammar", g.show()); s.set("ops", (unsigned long long)tc.threads[0].size()); s.set("threads", 1); st.sample(s); } }
+        { st.label("nontrivial"); st.label("sequential-history"); if (tc.share_stream) st.label("one-reused-stream-object"); if (st.want_sample()) { vj::Value s = vj::Value::object(); s.set("grammar", g.show()); s.set("ops", (unsigned long long)tc.threads[0].size()); s.set("threads", 1); st.sample(s); } }
         return Verdict::pass();
     }
     // concurrent
@@ -143,18 +147,20 @@ struct P_C15
             }
             c.threads.push_back(ops);
         }
+        c.share_stream = T == 1 && !ch.chance(1, 3);
         return c;
     }
     static vj::Value to_json(const Case& c)
     {
         vj::Value v = gcase_to_json(c.g); vj::Value th = vj::Value::array();
         for (auto& t : c.threads) { vj::Value a = vj::Value::array(); for (auto& op : t) { vj::Value o = vj::Value::object(); o.set("input", op.input); o.set("kind", op.kind); o.set("verbose", op.verbose); o.set("stream", op.stream); o.set("buffer", op.buffer); o.set("yields", op.yields); a.push(o); } th.push(a); }
-        v.set("threads", th); return v;
+        v.set("threads", th); v.set("share_stream", c.share_stream); return v;
     }
     static Case from_json(const vj::Value& v)
     {
         Case c; c.g = gcase_from_json(v);
         for (size_t t = 0; t < v.at("threads").size(); ++t) { std::vector<Op> ops; const auto& a = v.at("threads").at(t); for (size_t i = 0; i < a.size(); ++i) { Op op; op.input = int(a.at(i).at("input").as_int()); op.kind = int(a.at(i).at("kind").as_int()); op.verbose = a.at(i).at("verbose").as_bool(); op.stream = int(a.at(i).at("stream").as_int()); op.buffer = int(a.at(i).at("buffer").as_int()); op.yields = int(a.at(i).at("yields").as_int()); ops.push_back(op); } c.threads.push_back(ops); }
+        if (v.has("share_stream")) c.share_stream = v.at("share_stream").as_bool();
         return c;
     }
     static std::vector<Case> shrinks(const Case& c, const vj::Value&)
